@@ -262,6 +262,7 @@ def universal(I, family, schema, witness):
     choice), and implies its instances at the witnesses of the other statements of the family
     (the goal's Skolem constants are the terms the hypotheses are needed at)."""
     st = I.ctx.ghost.setdefault("universals", {}).setdefault(family, {"stmts": [], "wits": []})
+    FS.lazy(I, "universal ghost statements instantiated at each other's witnesses")
     phi = schema(*witness)
     for w in st["wits"]:
         I.ctx.assume(z3.Implies(phi, schema(*w)))
